@@ -1213,6 +1213,12 @@ class MyPyAstVisitor:
         if is_internal(name) and not name.endswith("__"):
             return False
 
+        if isinstance(parent, Function):
+            # Instance attributes assigned in the constructor follow their class, like class attributes do
+            grand_parent = self.__declaration_stack[-2]
+            if isinstance(grand_parent, Class) and not is_internal(name):
+                return grand_parent.is_public
+
         if isinstance(parent, Class) and (name == "__init__" or not is_internal(name)):
             return parent.is_public
 
